@@ -136,3 +136,37 @@ def copyLimitedSawEOF : Nat → Script → Nat → Bool
 def drainSawEOFPinned (limit : Nat) (s : Script) : Bool := copyLimitedSawEOF (limit + 1) s limit
 
 end ConnectModel
+
+namespace ConnectModel
+
+/-! ### which reads report the end (`ResponseEnded`, the amended F43) -/
+
+/-- `readLoop` (the bytes aside) that also says whether one of its reads returned no data
+    together with `io.EOF` - the reads that set `duplexHTTPCall.responseEnded` -/
+def readLoopSaw : Nat → Script → Nat → Bool × Option RErr × Script
+  | 0, s, _ => (false, some .other, s)
+  | fuel + 1, s, n =>
+    if n = 0 then (false, none, s)
+    else
+      let (b, e, s') := read1 s n
+      let saw := b.isEmpty && e == some .eof
+      if b.length ≥ n then (saw, none, s')
+      else match e with
+        | some err => (saw, some err, s')
+        | none => readLoopSaw fuel s' (n - b.length)
+
+/-- did a read of the drain report the end with no data? -/
+def drainSaw (limit : Nat) (s : Script) : Bool :=
+  let (saw, e, s') := readLoopSaw (limit + 1) s limit
+  match e with
+  | some _ => saw
+  | none =>
+    let (pb, pe, _) := read1 s' 1
+    saw || (pb.isEmpty && pe == some .eof)
+
+/-- the gRPC client looks at the HTTP trailers after a failed Receive iff the body had reported
+    its end before, or the drain reached it (or one of the drain's reads reported it) -/
+def trailersConsulted (endedBefore : Bool) (limit : Nat) (s : Script) : Bool :=
+  endedBefore || decide (drain limit s = .atEnd) || drainSaw limit s
+
+end ConnectModel
